@@ -100,6 +100,7 @@ type Op struct {
 	K    string  `json:"k"`
 	Key  Bytes   `json:"key,omitempty"`
 	Val  *Val    `json:"val,omitempty"`
+	F2   Bytes   `json:"f2,omitempty"` // hash field / set or zset member
 	Sub  []Op    `json:"sub,omitempty"`  // batch body / iterator calls
 	Cfg  *Config `json:"cfg,omitempty"`  // restart configuration
 	Flag bool    `json:"flag,omitempty"` // batch Sync option / iterator Reverse / fold early stop
